@@ -6,12 +6,20 @@
 //	    one goroutine: build the pool through the registered plugin factories, create two guns the way instancePool
 //	    does, acquire one ammo for each, walk everything reachable from (gun1, ammo1) and from (gun2, ammo2) and print
 //	    the labels of the allocation units reachable from BOTH; snapshot those units, fire ONE real Shoot per gun at an
-//	    in-process target and print the labels of the shared units whose content changed.
+//	    in-process target and print the labels of the shared units whose content changed; then walk again: `late` = units
+//	    both instances reach now but did not before (what the shots cached in shared objects: a sync.Map is entered through
+//	    Range), `latemut` = late units a second round of shots changed, `closures` = closure objects (func values with
+//	    captured variables, named by the canonical name of their code) both instances reach.
+//	mode=isolate kind=httpscen n=<instances> order=<digits> toks=<t0;t1;…> chains=<c0;c1;…>
+//	    one goroutine: shot j is fired by instance order[j] and answered with header X-Tok: toks[j] ("_" = none); the
+//	    scenario extracts variables through the var/header modifier chains, a jsonpath and an xpath, and echoes them to the
+//	    target in its later steps. together= what each shot echoed; solo= what the same shot echoes as the only shot of a
+//	    fresh pool.
 //	mode=handover kind=<pool kind> shots=<K> [steps=<N> failat=<K> fail=<fault>]
 //	    one goroutine: a real gun bound to a recording aggregator fires K real shots; per sample object the word of what
 //	    the gun did with it (T take from the pool, W write, G give to the aggregator). Scenario kinds take a scenario of
-//	    N steps whose step `failat` carries the fault (pools.go: none status conn post postbody postjson tmpl pre call
-//	    payload).
+//	    N steps whose step `failat` carries the fault (pools.go: none status conn post postbody postjson posthdr
+//	    postxpath tmpl pre call payload).
 //	mode=guns kind=<pool kind> n=<instances>
 //	    the real engine with a probing gun factory (child process): guns created, distinct gun objects, maximal number
 //	    of overlapping Shoot calls on one gun object, maximal number of goroutines calling one gun.
@@ -59,13 +67,16 @@ func main() {
 		Class:   class,
 		Workers: workers(),
 		Timeout: 150 * time.Second,
-		Rule: "the regenerated lock-facts table; every built-in pool kind (http uri/uripost/raw/json with and without preload and " +
+		Rule: "the regenerated lock-facts, closure and hand-over-site tables; every built-in pool kind (http uri/uripost/raw/json with and without preload and " +
 			"shared client, http/scenario, grpc/scenario, grpc/json with and without shared client): aliasing graph of two " +
-			"instances + write set of one real Shoot each; per-sample hand-over word (take/write/give) of real shots of every gun " +
+			"instances + write set of two real Shoots each + units and closure objects shared after the shots (sync.Map caches entered); " +
+			"variables of 2..4 instances shooting in random order against the same shots alone (random var/header modifier chains incl. " +
+			"substr with negative/omitted/out-of-range bounds, header values of random length 0..14 or absent); per-sample hand-over word (take/write/give) of real shots of every gun " +
 			"kind on every failure path of a scenario step (random scenario length and failing step); gun identity/overlap probe " +
 			"through the real engine with 1..16 instances; race-detector sweep of whole pools with 2..24 instances (discard and " +
 			"phout aggregators, scenarios with a failing step) and of each shared object (iterator, random sources, template " +
-			"caches, client pool, sample pool, DNS cache, shared schedules) hammered by 2..32 goroutines; the -race build draws " +
+			"caches, client pool, sample pool, DNS cache, shared schedules, the four http postprocessors with responses of changing header " +
+			"length, the http preprocessor) hammered by 2..32 goroutines; the -race build draws " +
 			"other cases than the plain build; non-trivial = shots reached the in-process target / samples reported / all calls done",
 	})
 }
